@@ -51,6 +51,9 @@ def catches (name : String) (e : Exc) : Bool :=
 structure Cfg where
   /-- the classes named in the `except` clause around `pickle.loads` -/
   caught : List String
+  /-- `parse` catches a `DatabaseError` of the lookup in a process that had already initialised the database,
+      discards the path from `initialized_dbs` and starts over once (the shape of proposed fix C01-1) -/
+  recover : Bool := false
   deriving Repr
 
 def Cfg.isCaught (cfg : Cfg) (e : Exc) : Bool := cfg.caught.any (catches · e)
@@ -213,30 +216,43 @@ def finish (pf : Ver → TextId → Option TreeId) (s : St) (x : TextId) (tree :
       | .error e => (s, .raised e)
       | .ok f => ({ s with file := f }, .value (some t))
 
-/-- `parse(txt, cache_expiration_days=days, always_update_last_hit=upd)` with a clean version. -/
-def parseCached (cfg : Cfg) (pf : Ver → TextId → Option TreeId) (s : St) (x : TextId) (days : Int) (upd : Bool) :
-    St × Res :=
-  match (if s.init then .ok s else initBlock s days) with
-  | .error (s, e) => (s, .raised e)
-  | .ok s =>
+/-- the `yesterday` read and the conditional `UPDATE … last_hit` of a found entry -/
+def touchStep (s : St) (x : TextId) (upd : Bool) (lastHit : Int) : Except (St × Err) St :=
+  let (ty, s) := s.read
+  if upd || decide (lastHit < ty - day) then
+    let (tu, s) := s.read
+    match txTouch x s.ver tu s.file with
+    | .error e => .error (s, e)
+    | .ok f => .ok { s with file := f }
+  else .ok s
+
+/-- the part of `parse` after the initialisation block: lookup, optional `last_hit` update, unpickle, and
+    (on a miss) fresh parse and insert. -/
+def afterInit (cfg : Cfg) (pf : Ver → TextId → Option TreeId) (s : St) (x : TextId) (upd : Bool) : St × Res :=
   match txLookup x s.ver s.file with
   | .error e => (s, .raised e)
   | .ok none => finish pf s x none
   | .ok (some (lastHit, blob)) =>
-    let (ty, s) := s.read
-    let touched : Except (St × Err) St :=
-      if upd || decide (lastHit < ty - day) then
-        let (tu, s) := s.read
-        match txTouch x s.ver tu s.file with
-        | .error e => .error (s, e)
-        | .ok f => .ok { s with file := f }
-      else .ok s
-    match touched with
+    match touchStep s x upd lastHit with
     | .error (s, e) => (s, .raised e)
     | .ok s =>
       match blob with
       | .good t => finish pf s x t
       | .bad e => if cfg.isCaught e then finish pf s x none else (s, .raised (.unpickle e))
+
+/-- `parse(txt, cache_expiration_days=days, always_update_last_hit=upd)` with a clean version.
+    With `cfg.recover`: when the process had the database initialised and the lookup raises (the `models`
+    table cannot be queried), the earlier check is forgotten and the call starts over, once. -/
+def parseCached (cfg : Cfg) (pf : Ver → TextId → Option TreeId) (s : St) (x : TextId) (days : Int) (upd : Bool) :
+    St × Res :=
+  match (if s.init then .ok s else initBlock s days) with
+  | .error (s1, e) => (s1, .raised e)
+  | .ok s1 =>
+    if cfg.recover && s.init && s1.file.queryable.isNone then
+      match initBlock { s1 with init := false } days with
+      | .error (s2, e) => (s2, .raised e)
+      | .ok s2 => afterInit cfg pf s2 x upd
+    else afterInit cfg pf s1 x upd
 
 /-! ### Operations of a cache history -/
 
